@@ -9,8 +9,9 @@ Local Open Scope Z_scope.
 
 
 Definition n_memv := [109;101;109;118].
-Definition n_obj : str := s [111;98;106].
-Definition n_lst : str := s [108;115;116].
+(* the parameter names as they are in base.sld now (so that a renaming re-proves) *)
+Definition p_memv_0 : str := Eval vm_compute in par n_memv 0.
+Definition p_memv_1 : str := Eval vm_compute in par n_memv 1.
 
 Lemma memv_closure : forall c, code_of n_memv = Some c ->
   forall l obj st lf, has_library st lf ->
@@ -18,16 +19,16 @@ Lemma memv_closure : forall c, code_of n_memv = Some c ->
 Proof.
   intros c Hc. vm_compute in Hc. injection Hc as <-.
   induction l as [|x r IH]; intros obj st lf HL; open_lib HL.
-  - start_proc st lf [(n_obj, obj); (n_lst, VNil)].
-    pose proof (null_spec VNil) as Hn. call_lib Hn (enter st lf [(n_obj, obj); (n_lst, VNil)]) lf.
+  - start_proc st lf [(p_memv_0, obj); (p_memv_1, VNil)].
+    pose proof (null_spec VNil) as Hn. call_lib Hn (enter st lf [(p_memv_0, obj); (p_memv_1, VNil)]) lf.
     eexists. split.
     + enter_tac. eapply evbody_last. eapply ev_if_true; [ev_simple|reflexivity|].
       thunk_tac. ev_simple.
     + keeps_tac.
   - cbn [vlist vmem].
-    start_proc st lf [(n_obj, obj); (n_lst, VPair x (vlist r))].
+    start_proc st lf [(p_memv_0, obj); (p_memv_1, VPair x (vlist r))].
     pose proof (null_spec (VPair x (vlist r))) as Hn.
-    call_lib Hn (enter st lf [(n_obj, obj); (n_lst, VPair x (vlist r))]) lf.
+    call_lib Hn (enter st lf [(p_memv_0, obj); (p_memv_1, VPair x (vlist r))]) lf.
     destruct (value_eqv obj x) eqn:E.
     + eexists. split.
       * enter_tac. eapply evbody_last. eapply ev_if_false; [ev_simple|reflexivity|].
@@ -55,22 +56,25 @@ Qed.
 
 (** memq: the same code with eq?, which is eqv? in this implementation *)
 Definition n_memq := [109;101;109;113].
+(* the parameter names as they are in base.sld now (so that a renaming re-proves) *)
+Definition p_memq_0 : str := Eval vm_compute in par n_memq 0.
+Definition p_memq_1 : str := Eval vm_compute in par n_memq 1.
 Lemma memq_closure : forall c, code_of n_memq = Some c ->
   forall l obj st lf, has_library st lf ->
   exists st', app st (closure c lf) [obj; vlist l] (Ok (vmem obj l)) st' /\ keeps st st'.
 Proof.
   intros c Hc. vm_compute in Hc. injection Hc as <-.
   induction l as [|x r IH]; intros obj st lf HL; open_lib HL.
-  - start_proc st lf [(n_obj, obj); (n_lst, VNil)].
-    pose proof (null_spec VNil) as Hn. call_lib Hn (enter st lf [(n_obj, obj); (n_lst, VNil)]) lf.
+  - start_proc st lf [(p_memq_0, obj); (p_memq_1, VNil)].
+    pose proof (null_spec VNil) as Hn. call_lib Hn (enter st lf [(p_memq_0, obj); (p_memq_1, VNil)]) lf.
     eexists. split.
     + enter_tac. eapply evbody_last. eapply ev_if_true; [ev_simple|reflexivity|].
       thunk_tac. ev_simple.
     + keeps_tac.
   - cbn [vlist vmem].
-    start_proc st lf [(n_obj, obj); (n_lst, VPair x (vlist r))].
+    start_proc st lf [(p_memq_0, obj); (p_memq_1, VPair x (vlist r))].
     pose proof (null_spec (VPair x (vlist r))) as Hn.
-    call_lib Hn (enter st lf [(n_obj, obj); (n_lst, VPair x (vlist r))]) lf.
+    call_lib Hn (enter st lf [(p_memq_0, obj); (p_memq_1, VPair x (vlist r))]) lf.
     destruct (value_eqv obj x) eqn:E.
     + eexists. split.
       * enter_tac. eapply evbody_last. eapply ev_if_false; [ev_simple|reflexivity|].
@@ -104,14 +108,17 @@ Qed.
 
 (** list-ref *)
 Definition n_list_ref := [108;105;115;116;45;114;101;102].
+(* the parameter names as they are in base.sld now (so that a renaming re-proves) *)
+Definition p_list_ref_0 : str := Eval vm_compute in par n_list_ref 0.
+Definition p_list_ref_1 : str := Eval vm_compute in par n_list_ref 1.
 Theorem list_ref_spec : forall k x y z, vtail k x = Some (VPair y z) -> (Z.of_nat k <= i32_max) ->
   lib_call n_list_ref [x; vint (Z.of_nat k)] y.
 Proof.
   intros k x y z H1 H2. eapply lib_call_intro; [vm_compute; reflexivity|].
   intros st lf HL. open_lib HL.
-  start_proc st lf [(n_x, x); (n_k, vint (Z.of_nat k))].
+  start_proc st lf [(p_list_ref_0, x); (p_list_ref_1, vint (Z.of_nat k))].
   pose proof (list_tail_spec k x _ H1 H2) as Ht.
-  call_lib Ht (enter st lf [(n_x, x); (n_k, vint (Z.of_nat k))]) lf.
+  call_lib Ht (enter st lf [(p_list_ref_0, x); (p_list_ref_1, vint (Z.of_nat k))]) lf.
   eexists. split.
   - enter_tac. eapply evbody_last. ev_simple.
   - keeps_tac.
@@ -121,7 +128,9 @@ Qed.
 
 (** make-list *)
 Definition n_make_list := [109;97;107;101;45;108;105;115;116].
-Definition n_fill : str := s [102;105;108;108].
+(* the parameter names as they are in base.sld now (so that a renaming re-proves) *)
+Definition p_make_list_0 : str := Eval vm_compute in par n_make_list 0.
+Definition p_make_list_1 : str := Eval vm_compute in par n_make_list 1.
 
 Ltac native_hint ::= (apply minus_call; lia).
 
@@ -134,8 +143,8 @@ Proof.
   - eexists. split.
     + enter_tac. eapply evbody_last. eapply ev_if_false; [ev_simple|reflexivity|ev_simple].
     + keeps_tac.
-  - start_proc st lf [(n_k, vint (Z.of_nat (S k))); (n_fill, fill)].
-    assert (HL1 : has_library (enter st lf [(n_k, vint (Z.of_nat (S k))); (n_fill, fill)]) lf)
+  - start_proc st lf [(p_make_list_0, vint (Z.of_nat (S k))); (p_make_list_1, fill)].
+    assert (HL1 : has_library (enter st lf [(p_make_list_0, vint (Z.of_nat (S k))); (p_make_list_1, fill)]) lf)
       by (eapply has_library_keeps; [exact HL | keeps_tac]).
     destruct (IH fill _ lf HL1 ltac:(lia)) as [st2 [Hrec K2]].
     replace (Z.of_nat k) with (Z.of_nat (S k) - 1) in Hrec by lia.
@@ -156,6 +165,8 @@ Qed.
 
 (** last-pair *)
 Definition n_last_pair := [108;97;115;116;45;112;97;105;114].
+(* the parameter names as they are in base.sld now (so that a renaming re-proves) *)
+Definition p_last_pair_0 : str := Eval vm_compute in par n_last_pair 0.
 
 Lemma last_pair_closure : forall c, code_of n_last_pair = Some c ->
   forall b a st lf, has_library st lf ->
@@ -165,8 +176,8 @@ Proof.
   induction b as [| | | | | | | |a' IHa b' IHb| | |]; intros a st lf HL; open_lib HL;
     try (eexists; split;
          [enter_tac; eapply evbody_last; eapply ev_if_false; [ev_simple|reflexivity|ev_simple] | keeps_tac]).
-  start_proc st lf [(n_x, VPair a (VPair a' b'))].
-  assert (HL1 : has_library (enter st lf [(n_x, VPair a (VPair a' b'))]) lf)
+  start_proc st lf [(p_last_pair_0, VPair a (VPair a' b'))].
+  assert (HL1 : has_library (enter st lf [(p_last_pair_0, VPair a (VPair a' b'))]) lf)
     by (eapply has_library_keeps; [exact HL | keeps_tac]).
   destruct (IHb a' _ lf HL1) as [st2 [Hrec K2]].
   eexists. split.
@@ -182,6 +193,8 @@ Qed.
 
 (** list? *)
 Definition n_listp := [108;105;115;116;63].
+(* the parameter names as they are in base.sld now (so that a renaming re-proves) *)
+Definition p_listp_0 : str := Eval vm_compute in par n_listp 0.
 
 Lemma listp_closure : forall c, code_of n_listp = Some c ->
   forall x st lf, has_library st lf ->
@@ -193,8 +206,8 @@ Proof.
          [enter_tac; eapply evbody_last; eapply ev_if_false; [ev_simple|reflexivity|];
           eapply ev_if_false; [ev_simple|reflexivity|ev_simple] | keeps_tac]).
   - (* pair *)
-    start_proc st lf [(n_x, VPair a b)].
-    assert (HL1 : has_library (enter st lf [(n_x, VPair a b)]) lf)
+    start_proc st lf [(p_listp_0, VPair a b)].
+    assert (HL1 : has_library (enter st lf [(p_listp_0, VPair a b)]) lf)
       by (eapply has_library_keeps; [exact HL | keeps_tac]).
     destruct (IHb _ lf HL1) as [st2 [Hrec K2]]. cbn [is_proper].
     destruct (is_proper b) eqn:E.
@@ -222,12 +235,14 @@ Qed.
 
 (** atom? *)
 Definition n_atomp := [97;116;111;109;63].
+(* the parameter names as they are in base.sld now (so that a renaming re-proves) *)
+Definition p_atomp_0 : str := Eval vm_compute in par n_atomp 0.
 Theorem atomp_spec : forall x, lib_call n_atomp [x] (VBool (negb (is_pair x) && negb (is_nil x))).
 Proof.
   intros x. eapply lib_call_intro; [vm_compute; reflexivity|].
   intros st lf HL. open_lib HL.
-  start_proc st lf [(n_x, x)].
-  pose proof (null_spec x) as Hn. call_lib Hn (enter st lf [(n_x, x)]) lf.
+  start_proc st lf [(p_atomp_0, x)].
+  pose proof (null_spec x) as Hn. call_lib Hn (enter st lf [(p_atomp_0, x)]) lf.
   destruct x; cbn [is_pair is_nil negb andb] in *;
     (eexists; split;
      [enter_tac; eapply evbody_last;
